@@ -342,6 +342,9 @@ func genC08(thorough bool) func(t *rapid.T) Case {
 		c.Base = genCLIBase(t, baseOpts{shapes: names, book: BookOpts{MaxRecipes: 6, Cycles: rapid.IntRange(0, 3).Draw(t, "cycles") == 3}, log: LogOpts{MaxDays: 5}})
 		c.BookMut = genMut(t, "bm")
 		c.LogMut = genMut(t, "lm")
+		if rapid.IntRange(0, 2).Draw(t, "extra_locals") == 2 {
+			c.Base.Inv.Locals = genExtraLocals(t, c.Base.Inv.Shape)
+		}
 		switch rapid.IntRange(0, 9).Draw(t, "flagfault") {
 		case 5:
 			c.ExtraArgs = []string{"--maxdepth", strconv.Itoa(rapid.SampledFrom([]int{0, 1, 2, -1, 50, 1000, 20000}).Draw(t, "maxdepth"))}
